@@ -385,6 +385,14 @@ Theorem C14_fine_bounded_completion : forall sg r0 st0 tr f,
 Proof. exact fine_bounded_completion. Qed.
 Print Assumptions C14_fine_bounded_completion.
 
+(* ... hence: from every reachable state of the channel-level system there IS a run without
+   new calls to a quiescent state (every caller inside Do has returned and released) *)
+Theorem C14_fine_terminates : forall sg r0 st0 tr f,
+  frun sg (finit r0 st0) tr = Some f ->
+  exists tr' f', forallb (fun e => negb (fis_env e)) tr' = true /\ frun sg f tr' = Some f' /\ fquiescent f'.
+Proof. exact fine_terminates. Qed.
+Print Assumptions C14_fine_terminates.
+
 Theorem C14_fine_counting : forall sg r0 st0 tr f,
   frun sg (finit r0 st0) tr = Some f -> InvF f /\ InvP f.
 Proof. exact fine_reachable_inv. Qed.
